@@ -73,7 +73,7 @@ def run(ctx, res):
         for what in S.oracle_asn(c):
             viol(res, what, S.asn_case_json(c))
     # 3. the whole path on round histories: sampling -> prep -> mvrs_to_data, with vote contents / manual records varied
-    hcases = S.corr_histories(ctx, res, stats, ctx.n(160, 2500), ctx.n(40, 500))
+    hcases = S.corr_histories(ctx, res, stats, ctx.n(160, 1200), ctx.n(40, 300))
     for c in hcases:
         h = c["hist"]
         if not h["valid"]:
